@@ -464,6 +464,15 @@ class WsgiApplication(HttpBase):
                                                 self.app.out_protocol.mime_type)
 
         self.event_manager.fire_event('wsgi_call', initial_ctx)
+
+        # a request that says it's too long is refused right away, whether or
+        # not the protocol gets to look at its body.
+        if self.__get_declared_length(req_env) > self.max_content_length:
+            initial_ctx.in_error = initial_ctx.out_error = RequestTooLongError()
+            initial_ctx.fire_event('method_exception_object')
+            return self.handle_error(initial_ctx, (), initial_ctx.in_error,
+                                                                 start_response)
+
         initial_ctx.in_string, in_string_charset = \
                                         self.__reconstruct_wsgi_request(req_env)
 
@@ -620,14 +629,17 @@ class WsgiApplication(HttpBase):
 
         return self.__wsgi_input_to_iterable(http_env), charset
 
+    def __get_declared_length(self, http_env):
+        length = str(http_env.get('CONTENT_LENGTH', self.max_content_length))
+        if len(length) == 0:
+            return 0
+
+        return int(length)
+
     def __wsgi_input_to_iterable(self, http_env):
         istream = http_env.get('wsgi.input')
 
-        length = str(http_env.get('CONTENT_LENGTH', self.max_content_length))
-        if len(length) == 0:
-            length = 0
-        else:
-            length = int(length)
+        length = self.__get_declared_length(http_env)
 
         if length > self.max_content_length:
             raise RequestTooLongError()
